@@ -50,3 +50,15 @@ neg "inheritance predicate forgets the parent test" r14-1-2 's/return stop\.Pare
 neg "pair helper leaves the missing departure at zero" r14-1-3 's/return stopTimePair\{arrival: arrival, departure: arrival\}, true/return stopTimePair{arrival: arrival}, true/' static.go C10
 neg "fill helper answers the invalid departure"  r14-5-2 's/return arrival, arrival, true/return arrival, departure, true/' static.go C10
 neg "caller stores the pair's fields crosswise"  r14-1-3 's/ArrivalTime:           times\.arrival,/ArrivalTime:           times.departure,/' static.go C10
+neg "swapped-result start time in milliseconds"   r15-2-1 's/\) \* time\.Second, true/) * time.Millisecond, true/' realtime.go C02
+neg "swapped-result start time rejects late hours" r15-2-1 's/\th, _ := strconv\.Atoi\(startTimeMatch\[1\]\)\n/\th, _ := strconv.Atoi(startTimeMatch[1])\n\tif h > 23 {\n\t\treturn 0, false\n\t}\n/' realtime.go C04 C12
+neg "date helper with a flag reads day before month" r15-1-3 's/const gtfsDateLayout = "20060102"/const gtfsDateLayout = "20060201"/' static.go C01 C11
+neg "missing-columns predicate answers the wrong way" r15-1-4 's/\tif missing == nil \{\n\t\treturn false\n\t\}\n\tfmt\.Println\(missing\)\n\treturn true/\tif missing != nil {\n\t\treturn false\n\t}\n\tfmt.Println(missing)\n\treturn true/' static.go C05
+neg "route type table maps 3 to rail"             r15-1-5 's/"3":  RouteType_Bus,/"3":  RouteType_Rail,/' enums.go C01
+neg "options method converts in UTC"              r15-2-6 's/return time\.Unix\(seconds, 0\)\.In\(opts\.timezoneOrUTC\(\)\)/return time.Unix(seconds, 0).UTC()/' realtime.go C02
+neg "optional converter of the options fabricates a time" r15-2-6 's/\tif in == nil \{\n\t\treturn nil\n\t\}\n\tout := opts\.unixTime/\tif in == nil {\n\t\tin = new(uint64)\n\t}\n\tout := opts.unixTime/' realtime.go C02
+neg "generic value-or-zero answers a blank for a present value" r15-3-5 's/\tif p == nil \{\n\t\tvar zero T\n\t\treturn zero\n\t\}\n\treturn \*p/\tvar zero T\n\tif p == nil {\n\t\treturn zero\n\t}\n\t_ = *p\n\treturn zero/' journal/journal.go C20
+neg "pop helper answers the last name"            r15-3-6 's/filepath\.Join\(s\.baseDir, s\.fileNames\[0\]\)\n\ts\.fileNames = s\.fileNames\[1:\]\n\treturn filePath, true/filepath.Join(s.baseDir, s.fileNames[len(s.fileNames)-1])\n\ts.fileNames = s.fileNames[1:]\n\treturn filePath, true/' journal/journal.go C19
+neg "read helper parses without the bytes it read" r15-3-6 's/return gtfs\.ParseRealtime\(b, /return gtfs.ParseRealtime(b[:0], /' journal/journal.go C19
+neg "id setter keeps a position's own descriptor"  r15-4-1 's/(case \*gtfsrt\.VehiclePosition:\n\t\tif t\.Vehicle != nil \{\n)/$1\t\t\treturn\n/' extensions/nycttrips/nycttrips.go C04 C07 C16
+neg "caller of the stale test asks about assigned trips" r15-4-2 's/e\.opts\.FilterStaleUnassignedTrips && !isAssigned && isStaleTrip/e.opts.FilterStaleUnassignedTrips \&\& isAssigned \&\& isStaleTrip/' extensions/nycttrips/nycttrips.go C16
